@@ -345,6 +345,42 @@ type prepared struct {
 	run func(id string)
 }
 
+// first observed line (without its id) per prepared call: a later execution of the same
+// call that prints anything else shows a dependence on the call history
+var histMu sync.Mutex
+var histFirst = map[string]string{}
+
+func emitHist(key string, format string, a ...interface{}) {
+	line := fmt.Sprintf(format, a...)
+	parts := strings.SplitN(line, " ", 3)
+	body := parts[0]
+	if len(parts) == 3 {
+		body += " " + parts[2]
+	}
+	if strings.HasPrefix(line, "MERGE ") {
+		// MergePatch promises the same JSON value, not the same bytes (new members are
+		// appended in Go map iteration order): compare a canonical rendering
+		if i := strings.Index(body, "=> ok:"); i >= 0 {
+			f := strings.Fields(body[i+3:])
+			if b, ok := okBytes(f[0]); ok {
+				if v, err := parseJV(b); err == nil {
+					body = body[:i] + "=> value:" + spell{1, nil}.print(sortKeys(v)) + " " + strings.Join(f[1:], " ")
+				}
+			}
+		}
+	}
+	histMu.Lock()
+	first, seen := histFirst[key]
+	if !seen {
+		histFirst[key] = body
+	}
+	histMu.Unlock()
+	if seen && first != body {
+		line += " hist=diff"
+	}
+	emit("%s", line)
+}
+
 func patchFingerprint(p jsonpatch.Patch) string {
 	var sb strings.Builder
 	for _, op := range p {
@@ -378,6 +414,8 @@ func patchFingerprint(p jsonpatch.Patch) string {
 func prepareCalls(r *rng, k int) []prepared {
 	var calls []prepared
 	for i := 0; i < k; i++ {
+		key := fmt.Sprintf("k%d-%d", r.next(), i)
+		_ = key
 		switch r.n(8) {
 		case 0, 1, 2:
 			o := randOpts(r)
@@ -409,7 +447,7 @@ func prepareCalls(r *rng, k int) []prepared {
 				if !bytes.Equal(docSnap, c.doc) || patchFingerprint(shared) != fp {
 					extra += " mut=1"
 				}
-				emit("APPLY %s %s %d %s %s %s => %s%s", id, c.o.flags(), c.o.limit, hx([]byte(c.indent)), hx(c.doc), hx(c.patch), obs, extra)
+				emitHist(key, "APPLY %s %s %d %s %s %s => %s%s", id, c.o.flags(), c.o.limit, hx([]byte(c.indent)), hx(c.doc), hx(c.patch), obs, extra)
 			}})
 		case 3:
 			a, b := genText(r), genText(r)
@@ -426,7 +464,7 @@ func prepareCalls(r *rng, k int) []prepared {
 				if !bytes.Equal(sa, a) || !bytes.Equal(sb, b) {
 					mut = " mut=1"
 				}
-				emit("EQUAL %s %s %s => %s%s", id, hx(a), hx(b), res, mut)
+				emitHist(key, "EQUAL %s %s %s => %s%s", id, hx(a), hx(b), res, mut)
 			}})
 		case 4, 5:
 			c := cfgFor(r)
@@ -443,7 +481,7 @@ func prepareCalls(r *rng, k int) []prepared {
 				if !bytes.Equal(sd, td) || !bytes.Equal(sp, tp) {
 					mut = " mut=1"
 				}
-				emit("MERGE %s %s %s => %s%s", id, hx(td), hx(tp), res, mut)
+				emitHist(key, "MERGE %s %s %s => %s%s", id, hx(td), hx(tp), res, mut)
 			}})
 		case 6:
 			c := cfgFor(r)
@@ -461,7 +499,7 @@ func prepareCalls(r *rng, k int) []prepared {
 				if !bytes.Equal(sa, ta) || !bytes.Equal(sb, tb) {
 					mut = " mut=1"
 				}
-				emit("CREATE %s %s %s => %s %s%s", id, hx(ta), hx(tb), pobs, mobs, mut)
+				emitHist(key, "CREATE %s %s %s => %s %s%s", id, hx(ta), hx(tb), pobs, mobs, mut)
 			}})
 		default:
 			t := genText(r)
@@ -664,3 +702,23 @@ func streamCli(r *rng, n int, pfx string) {
 }
 
 var _ = reflect.DeepEqual
+
+func sortKeys(v *jv) *jv {
+	for _, x := range v.arr {
+		sortKeys(x)
+	}
+	for _, x := range v.vals {
+		sortKeys(x)
+	}
+	if v.kind == kObj {
+		for i := range v.keys {
+			for j := i + 1; j < len(v.keys); j++ {
+				if v.keys[j] < v.keys[i] {
+					v.keys[i], v.keys[j] = v.keys[j], v.keys[i]
+					v.vals[i], v.vals[j] = v.vals[j], v.vals[i]
+				}
+			}
+		}
+	}
+	return v
+}
